@@ -2840,7 +2840,9 @@ class RoAffine:
             else:
                 left = self
                 right = other
-            raffine = left.raffine + right.raffine
+            width = max(left.raffine.shape[1], right.raffine.shape[1])
+            raffine = (self._pad_raffine(left.raffine, width) +
+                       self._pad_raffine(right.raffine, width))
             affine = left.affine + right.affine
             if self.dec_model is not other.dec_model or \
                self.rand_model is not other.rand_model:
@@ -2891,6 +2893,20 @@ class RoAffine:
             return RoAffine(raffine, affine, self.rand_model)
         else:
             raise TypeError('Expression not supported.')
+
+    @staticmethod
+    def _pad_raffine(raffine, width):
+        # Coefficient arrays of expressions created before further random
+        # variables were declared have fewer columns: pad them with zeros.
+        rows, cols = raffine.shape
+        if cols >= width:
+            return raffine
+        idx_old = np.arange(rows * cols)
+        idx_new = (idx_old // cols) * width + idx_old % cols
+        select = csr_matrix((np.ones(rows * cols), (idx_new, idx_old)),
+                            shape=(rows * width, rows * cols))
+        const = np.hstack((raffine.const, np.zeros((rows, width - cols))))
+        return Affine(raffine.model, select @ raffine.linear, const)
 
     def __radd__(self, other):
 
